@@ -7,6 +7,7 @@ CONSTANTS
   MaxFaults = 1000000
   AllowCrash = FALSE
   AllowEmptyLeftover = FALSE
+  AllowTornRmdir = FALSE
   CombinerClearsQueueOnFailedFlush = TRUE
   ReaderReportsHunks = TRUE
   BkRechecksLock = TRUE
